@@ -202,7 +202,7 @@ PROPS = {
     },
     "C01": {
         "id": "C01",
-        "lean_modules": ["HaqqModel.Props.C01"],
+        "lean_modules": ["HaqqModel.Props.C01", "HaqqModel.Props.KeeperMemory"],
         "level": "proof",
         "no_model": True,
         "trusted_base": COMMON_TRUST + [
@@ -219,7 +219,7 @@ PROPS = {
     },
     "C20": {
         "id": "C20",
-        "lean_modules": ["HaqqModel.Props.C20"],
+        "lean_modules": ["HaqqModel.Props.C20", "HaqqModel.Props.KeeperMemory"],
         "level": "proof",
         "no_model": True,
         "trusted_base": COMMON_TRUST + [
